@@ -707,6 +707,9 @@ def run(ck):
             hm = dict(hm, fail=dict(at=fm["at"], e=fm["e"], kind=fm["kind"]))
             ck.violation(classify(hm, fm), "after %s: %s" % (describe(hm), fm["what"]), hm)
             break
+    ck.case(dict(kind="deepcopy"), nontrivial=True)
+    for cls, what in copy_check():
+        ck.violation(cls, what, dict(kind="deepcopy"))
     ck.assumptions += [
         "a compiled evaluator is abstracted to the snapshot (definition, arity of self._sp, values) it was built from; "
         "sympy/lambdify is an oracle: same expressions and arguments => same numbers",
@@ -715,6 +718,45 @@ def run(ck):
         "a mutator that raises is assumed to leave the definition unchanged (not checked: see REPORT, partial param_list)",
         "the hessian evaluator is outside the add_func mechanism and raises on every model of this tree; not covered",
     ]
+
+
+def copy_check():
+    """a deep copy of a model whose evaluators have been compiled is a model of its own: after its parameters are changed every
+    evaluator of the copy answers like a freshly built model with those values, and the original keeps answering with its own.
+    -> list of (cls, what)"""
+    import copy
+    out = []
+    h = dict(states=list(STATES), params=["p0", "p1"],
+             base=[dict(op="mut", how="add_event_E", rate=dict(k="mass", p="p0", X="S", Y="I"), tr=[dict(tt="T", o="S", d="I", mag=1)]),
+                   dict(op="mut", how="add_event_E", rate=dict(k="lin", p="p1", X="I", Y="R"), tr=[dict(tt="T", o="I", d="R", mag=2)]),
+                   dict(op="mut", how="add_ode", o="R", rate=dict(k="lin", p="p1", X="I", Y="S"))])
+    defn = new_def(h)
+    x = np.array([2.0, 1.5, 0.75])
+    v_old, v_new = [0.5, 0.25], [1.75, 0.125]
+    live = build(defn, v_old)
+    for e in EVALS11:
+        try:
+            getattr(live, e)(x, 0.0)
+        except BaseException:      # noqa: B902
+            pass
+    cp = copy.deepcopy(live)
+    cp.parameters = list(v_new)
+    fresh_new, fresh_old = build(defn, v_new), build(defn, v_old)
+    for who, mdl, ref in (("the deep copy (parameters changed on it)", cp, fresh_new), ("the original (after its copy was changed)", live, fresh_old)):
+        for e in EVALS11:
+            try:
+                want = np.asarray(getattr(ref, e)(x, 0.0), dtype=float)
+            except BaseException:      # noqa: B902
+                continue
+            try:
+                got = np.asarray(getattr(mdl, e)(x, 0.0), dtype=float)
+            except BaseException as ex:      # noqa: B902
+                out.append(("error-after-deepcopy", "%s: %s raised %r" % (who, e, ex)))
+                continue
+            if not close(got, want):
+                out.append(("stale-after-deepcopy", "%s: %s returned %s; a freshly constructed model with those values returns %s"
+                            % (who, e, np.round(got, 6).tolist(), np.round(want, 6).tolist())))
+    return out[:3]
 
 
 def describe(h):
@@ -728,6 +770,9 @@ def describe(h):
 
 def replay(ck, data):
     h = data["input"]
+    if h.get("kind") == "deepcopy":
+        v = copy_check()
+        return v[0][1] if v else None
     _, canary, registered = facts_lists()
     f = first_failure(h, canary, registered)
     return f["what"] if f else None
